@@ -2,6 +2,7 @@ package lang
 
 import (
 	"fmt"
+	"sort"
 	"strconv"
 	"strings"
 )
@@ -168,6 +169,17 @@ func (v *Value) PrettyString(quote bool) string {
 	return v.prettyStringInteral(rootValues, quote, false)
 }
 
+// the keys of an object in sorted order, so that anything that walks an object
+// is deterministic rather than following go's random map order
+func (v *Value) sortedKeys() []string {
+	keys := make([]string, 0, len(*v.Obj))
+	for key := range *v.Obj {
+		keys = append(keys, key)
+	}
+	sort.Strings(keys)
+	return keys
+}
+
 func isSame(a *Value, b *Value) bool {
 	if a.Tag != b.Tag {
 		return false
@@ -219,16 +231,15 @@ func (v *Value) prettyStringInteral(rootValues []*Value, quote bool, checkCircul
 	case ValueObj:
 		var sb strings.Builder
 		sb.WriteByte('{')
-		index := 0
-		for key, value := range *v.Obj {
+		for index, key := range v.sortedKeys() {
 			if index > 0 {
 				sb.WriteString(", ")
 			}
 
+			value := (*v.Obj)[key]
 			sb.WriteString("\"" + key + "\"")
 			sb.WriteString(": ")
 			sb.WriteString(value.Value.prettyStringInteral(append(rootValues, v), true, true))
-			index++
 		}
 		sb.WriteByte('}')
 		return sb.String()
